@@ -57,26 +57,24 @@ Theorem accepted_revocation_revokes_refuted :
 Proof. exact FaultsWitnesses.accepted_revocation_revokes_refuted. Qed.
 Print Assumptions accepted_revocation_revokes_refuted.
 
-(* (c) the begin/commit/rollback trace of every execution that ends in a response is in the language
+(* (c) the begin/commit/rollback trace of every execution is in the language
    (Begin (CommitOk | CommitFailed Rollback | FailedCall Rollback | Rollback))*: no commit after a failed call, nothing
-   left open, no nesting; a plain store sees no transaction call at all.
-   Full statement (for every execution): see every_request_is_answered_refuted. *)
-Theorem transaction_trace_wellformed_partial :
+   left open, no nesting; a plain store sees no transaction call at all *)
+Theorem transaction_trace_wellformed :
   forall e cfg s o, faultable o = true ->
   let '(s', ob, calls) := fstep e cfg s o in
-  o_err ob <> "PANIC" ->
   tx_wf calls = true /\ (fe_tx e = false -> forall c, In c calls -> is_tx_meth (fst c) = false).
 Proof. exact FaultsTheorems.transaction_trace_wellformed. Qed.
-Print Assumptions transaction_trace_wellformed_partial.
+Print Assumptions transaction_trace_wellformed.
 
-(* one execution does not end in a response (known finding C18-F3): when the store answers ErrInactiveToken for a
-   refresh token it has no record of, handleRefreshTokenReuse dereferences the nil requester after BeginTX and
-   DeleteRefreshTokenSession; the transaction is left open *)
-Theorem every_request_is_answered_refuted :
-  exists e cfg s o, faultable o = true /\
-    let '(s', ob, calls) := fstep e cfg s o in o_err ob = "PANIC" /\ tx_wf calls = false.
-Proof. exact FaultsWitnesses.every_request_is_answered_refuted. Qed.
-Print Assumptions every_request_is_answered_refuted.
+(* every request is answered: no execution ends in the panic observation.  (Before the repair 8ec4c3a, recorded as C18-F3,
+   the refresh handler dereferenced a nil requester when the store reported reuse without handing back the stored request;
+   the monitor keeps its clause for that observation, so the defect is re-detected by name if it returns.) *)
+Theorem every_request_is_answered :
+  forall e cfg s o, faultable o = true ->
+  let '(s', ob, calls) := fstep e cfg s o in o_err ob <> "PANIC".
+Proof. exact FaultsTheorems.every_request_is_answered. Qed.
+Print Assumptions every_request_is_answered.
 
 (* (d) transactional store: when the transaction of the request was begun and not committed and its rollback did not
    fail, every table, the log, the registrations and the clock are exactly as before the request *)
@@ -120,11 +118,11 @@ Proof. exact FaultsTheorems.fail_closed. Qed.
 Print Assumptions fail_closed.
 
 (* the monitor that judges the implementation's observations accepts everything the model does (so it cannot raise an
-   alarm on code that matches the model), up to the finding named in its tag *)
+   alarm on code that matches the model), up to the one finding named in its tag (F1); the panic clause never fires on the model *)
 Theorem monitor_accepts_the_model :
   forall e cfg s o, faultable o = true ->
   let '(s', ob, calls) := fstep e cfg s o in
-  (mon_panic ob = None -> mon_c (fe_tx e) calls = None) /\ mon_serial o calls ob = None /\
+  mon_panic ob = None /\ mon_c (fe_tx e) calls = None /\ mon_serial o calls ob = None /\
   (mon_b o calls ob = None \/ mon_b o calls ob = Some "tokens_issued_after_notfound_fault_on_pkce_lookup").
 Proof. exact MonitorC18.monitor_accepts_the_model. Qed.
 Print Assumptions monitor_accepts_the_model.
